@@ -48,5 +48,51 @@ def pathOKb (H : Heur) (m : Arena O) (ebb : Box) (lvl : Nat) (root : Ptr) : Nat 
                 | some c2 => !(subs m f c2).contains p && (subs m f c).all (fun x => !(subs m f c2).contains x)) &&
               pathOKb H m ebb lvl root f c
 
+/-- the index path from `root` down to `x`, read off the STORED parent fields and `getEntry` (what condenseTree follows upwards) -/
+def pathUp (m : Arena O) (root : Ptr) : Nat → Ptr → List Nat → Option (List Nat)
+  | 0, _, _ => none
+  | f+1, x, acc =>
+    if x == root then some acc
+    else
+      match m[x]? with
+      | none => none
+      | some xd =>
+        match xd.parent with
+        | none => none
+        | some p =>
+          match m[p]? with
+          | none => none
+          | some pd =>
+            match entryIdx pd.entries x with
+            | none => none
+            | some i => pathUp m root f p (i :: acc)
+
+/-- `OnPath` (ProofsHeapCondense.lean) as a Boolean (sound: `onPathb_sound`) -/
+def onPathb (m : Arena O) (root : Ptr) (minC : Nat) : Nat → Ptr → List Nat → Ptr → Bool
+  | _, p, [], lp => p == lp
+  | 0, _, _ :: _, _ => false
+  | f+1, p, i :: rest, lp =>
+    match m[p]? with
+    | none => false
+    | some nd =>
+      match nd.entries[i]? with
+      | none => false
+      | some e =>
+        match e.child with
+        | none => false
+        | some c =>
+          match m[c]? with
+          | none => false
+          | some cd =>
+            (cd.parent == some p) && (c != root) && (entryIdx nd.entries c == some i) &&
+            !(subs m f c).contains p &&
+            (rest.isEmpty || decide (minC ≤ cd.entries.length)) &&
+            (nd.entries.zipIdx.all fun ej =>
+              ej.2 == i ||
+              match ej.1.child with
+              | none => true
+              | some c2 => !(subs m f c2).contains p && (subs m f c).all (fun x => !(subs m f c2).contains x)) &&
+            onPathb m root minC f c rest lp
+
 end Heap
 end GeomV.C11
